@@ -192,12 +192,17 @@ theorem create_created_mem {g : Grid} {lst : List Seg} {ts : Int} {n : Seg} {l :
   rw [hins]
   exact (mem_insertSeg g n lst x).2 (Or.inr hx)
 
-/-- What must hold of one step taken in state `d`; the deadline is `clock − current TTL`. -/
-def StepOK (z : Zone) (d : DB) (op : Op) : Prop :=
+/-- What must hold of one step `d → ap d op`; the deadline is `clock − current TTL`.
+    `tickHyp = true` restricts the tick clause to ticks whose event time is not ahead of the clock. -/
+def StepOKGen (ap : DB → Op → DB) (tickHyp : Bool) (d : DB) (op : Op) : Prop :=
   match op with
-  | .retention | .tick _ =>
-    -- (a) retention (cron- or tick-driven) deletes nothing that reaches past now − ttl
-    ∀ s ∈ d.lst, retentionDeadline d.clock d.ttl < s.end_ → s ∈ (applyOp z d op).lst
+  | .retention =>
+    -- (a) a scheduled retention run deletes nothing that reaches past now − ttl
+    ∀ s ∈ d.lst, retentionDeadline d.clock d.ttl < s.end_ → s ∈ (ap d op).lst
+  | .tick ts =>
+    -- (a) … nor does the retention run started by a tick
+    (tickHyp = true → ts ≤ d.clock) →
+    ∀ s ∈ d.lst, retentionDeadline d.clock d.ttl < s.end_ → s ∈ (ap d op).lst
   | .select r =>
     -- (b) a query never sees a segment wholly before now − ttl, and sees every other overlapping one
     (∀ s ∈ (dbSelect d.lst r (retentionDeadline d.clock d.ttl)).1, retentionDeadline d.clock d.ttl < s.end_) ∧
@@ -205,25 +210,58 @@ def StepOK (z : Zone) (d : DB) (op : Op) : Prop :=
       ∃ s' ∈ (dbSelect d.lst r (retentionDeadline d.clock d.ttl)).1, s'.start = s.start ∧ s'.end_ = s.end_)
   | .delold =>
     -- forced cleanup: at most one segment, the oldest, never the last
-    d.lst.length ≤ (applyOp z d op).lst.length + 1 ∧ (d.lst ≠ [] → (applyOp z d op).lst ≠ []) ∧
-    (applyOp z d op).lst = (if 2 ≤ d.lst.length then d.lst.tail else d.lst)
+    d.lst.length ≤ (ap d op).lst.length + 1 ∧ (d.lst ≠ [] → (ap d op).lst ≠ []) ∧
+    (ap d op).lst = (if 2 ≤ d.lst.length then d.lst.tail else d.lst)
   | .clock _ | .ttl _ | .interval _ | .create _ =>
     -- nothing else removes a segment
-    ∀ s ∈ d.lst, s ∈ (applyOp z d op).lst
+    ∀ s ∈ d.lst, s ∈ (ap d op).lst
   | .reopen => True
 
-def TraceOK (z : Zone) : DB → List Op → Prop
+def TraceOKGen (ap : DB → Op → DB) (tickHyp : Bool) : DB → List Op → Prop
   | _, [] => True
-  | d, op :: rest => StepOK z d op ∧ TraceOK z (applyOp z d op) rest
+  | d, op :: rest => StepOKGen ap tickHyp d op ∧ TraceOKGen ap tickHyp (ap d op) rest
 
-theorem step_ok (z : Zone) (d : DB) (op : Op) : StepOK z d op := by
+/-- **The full statement of C07 for the code as written**: every step of every history satisfies
+    `StepOKGen` with *no* restriction on tick event times. It is FALSE for the code as written
+    (`retention_statement_fails`, finding F71); what is proved of the code as written is
+    `retention_property_partial`, and of the proposed repair `retention_property_repaired`. -/
+def RetentionStatement (z : Zone) : Prop := ∀ (d : DB) (ops : List Op), TraceOKGen (applyOp z) false d ops
+
+/-- a retention run whose `now` is not ahead of the clock keeps every segment that reaches past
+    `clock − ttl`; so does the rest of the tick handler -/
+theorem tickWith_keeps (z : Zone) (d : DB) (ts retNow : Int) (h : retNow ≤ d.clock) :
+    ∀ s ∈ d.lst, retentionDeadline d.clock d.ttl < s.end_ → s ∈ (tickWith z d ts retNow).2.lst := by
+  intro s hs hlive
+  have hkeep : s ∈ remove d.lst (retNow - d.ttl.estimatedDuration) :=
+    (remove_exact d.lst _ s).2.2 ⟨hs, by simp only [retentionDeadline] at hlive; omega⟩
+  simp only [tickWith]
+  split
+  · exact hs
+  · split
+    · exact hs
+    · split
+      · exact hs
+      · simp only [retentionRun]
+        split
+        · exact hkeep
+        · split
+          · exact hkeep
+          · split
+            · rename_i hc; exact create_created_mem hc s hkeep
+            · exact hkeep
+            · exact hkeep
+
+theorem step_ok_gen (tk : DB → Int → TickResult × DB) (tickHyp : Bool) (z : Zone)
+    (htk : ∀ d ts, (tickHyp = true → ts ≤ d.clock) →
+      ∀ s ∈ d.lst, retentionDeadline d.clock d.ttl < s.end_ → s ∈ (tk d ts).2.lst)
+    (d : DB) (op : Op) : StepOKGen (applyOpWith tk z) tickHyp d op := by
   cases op with
   | clock t => intro s hs; exact hs
   | ttl r => intro s hs; exact hs
   | interval n => intro s hs; exact hs
   | create ts =>
     intro s hs
-    simp only [applyOp]
+    simp only [applyOpWith]
     cases hc : create (d.grid z) d.lst ts with
     | created n l => exact create_created_mem hc s hs
     | invalid => exact hs
@@ -231,31 +269,15 @@ theorem step_ok (z : Zone) (d : DB) (op : Op) : StepOK z d op := by
     | panic => exact hs
   | retention =>
     intro s hs hlive
-    simp only [applyOp, retentionRun]
+    simp only [applyOpWith, retentionRun]
     exact (remove_exact d.lst _ s).2.2 ⟨hs, hlive⟩
   | tick ts =>
-    intro s hs hlive
-    have hkeep : s ∈ remove d.lst (d.clock - d.ttl.estimatedDuration) :=
-      (remove_exact d.lst _ s).2.2 ⟨hs, hlive⟩
-    simp only [applyOp, tick, tickWith]
-    split
-    · exact hs
-    · split
-      · exact hs
-      · split
-        · exact hs
-        · simp only [retentionRun]
-          split
-          · exact hkeep
-          · split
-            · exact hkeep
-            · split
-              · rename_i hc; exact create_created_mem hc s hkeep
-              · exact hkeep
-              · exact hkeep
+    intro hh s hs hlive
+    simp only [applyOpWith]
+    exact htk d ts hh s hs hlive
   | delold =>
     have h := forced_cleanup_bounds d.lst
-    simp only [StepOK, applyOp]
+    simp only [StepOKGen, applyOpWith]
     refine ⟨h.2.2.1, h.2.2.2.1, ?_⟩
     rw [h.2.1]
     by_cases h2 : 2 ≤ d.lst.length
@@ -270,15 +292,33 @@ theorem step_ok (z : Zone) (d : DB) (op : Op) : StepOK z d op := by
     have h := select_hides_expired d.lst r (retentionDeadline d.clock d.ttl)
     exact ⟨h.2.1, h.2.2.1⟩
 
-/-- **retention_property**: for every initial database, zone, and every sequence of clock moves, TTL /
-    interval updates, writes, scheduled retention runs, ticks, forced cleanups, reopen cycles and
-    queries, each step satisfies `StepOK`: (a) data with `ts ≥ now − ttl` is never deleted by
-    retention (only forced cleanup of the single oldest segment may take it), (b) a segment wholly
-    before the deadline is invisible to queries from the instant that holds. -/
-theorem retention_property (z : Zone) (ops : List Op) : ∀ d : DB, TraceOK z d ops := by
+theorem trace_ok_gen (tk : DB → Int → TickResult × DB) (tickHyp : Bool) (z : Zone)
+    (htk : ∀ d ts, (tickHyp = true → ts ≤ d.clock) →
+      ∀ s ∈ d.lst, retentionDeadline d.clock d.ttl < s.end_ → s ∈ (tk d ts).2.lst)
+    (ops : List Op) : ∀ d : DB, TraceOKGen (applyOpWith tk z) tickHyp d ops := by
   induction ops with
   | nil => intro d; trivial
-  | cons op rest ih => intro d; exact ⟨step_ok z d op, ih _⟩
+  | cons op rest ih => intro d; exact ⟨step_ok_gen tk tickHyp z htk d op, ih _⟩
+
+/-- **retention_property (code as written), `_partial`**: for every initial database, zone, and every
+    sequence of clock moves, TTL / interval updates, writes, scheduled retention runs, ticks, forced
+    cleanups, reopen cycles and queries, each step satisfies: (a) data with `ts ≥ now − ttl` is never
+    deleted by a scheduled retention run, nor by the run a tick starts **provided the tick's event
+    time is not ahead of the clock** (only forced cleanup of the single oldest segment may take such
+    data), (b) a segment wholly before the deadline is invisible to queries from the instant that
+    holds, and every other overlapping segment is visible. The gap to `RetentionStatement` is exactly
+    F71 (ticks with event time > clock). -/
+theorem retention_property_partial (z : Zone) (ops : List Op) (d : DB) :
+    TraceOKGen (applyOp z) true d ops :=
+  trace_ok_gen (tick z) true z
+    (fun d ts hh => tickWith_keeps z d ts ts (hh rfl)) ops d
+
+/-- PROPOSED REPAIR (`tick_repaired`, /verif/fixes/F71.diff, not in /repo): with the clock handed to the
+    tick-driven retention run the full statement holds, for every history. -/
+theorem retention_property_repaired (z : Zone) (ops : List Op) (d : DB) :
+    TraceOKGen (applyOpRepaired z) false d ops :=
+  trace_ok_gen (tick_repaired z) false z
+    (fun d ts _ => tickWith_keeps z d ts d.clock (Int.le_refl _)) ops d
 
 /-- **ttl_update**: after `UpdateOptions` changed the TTL (in either direction), the next retention
     run — whatever duration the task captured when it was created — deletes only segments wholly
@@ -308,10 +348,10 @@ theorem ttl_update_legacy_counterexample :
         (retentionDeadline f7DB.clock f7DB.ttl)).1.map Seg.start = [1715126400000000000, 1714521600000000000]) := by
   decide
 
-/-- F71 witness: TTL 5 d, clock 2024-05-10T06:00Z, segments 05-05 … (all inside the TTL by the
-    clock); a write stamped 2024-05-20 ticks the database: the handler as written at the pinned
-    commit runs retention with the *event* time and deletes everything before 05-15; the repaired
-    handler (clock time) deletes nothing. -/
+/-- F71 witness: TTL 5 d, clock 2024-05-10T06:00Z, segments 05-05 and 05-10 (both inside the TTL by
+    the clock); a write stamped 2024-05-20 ticks the database: the handler as written runs retention
+    with the *event* time and deletes everything before 05-15; the proposed repair (clock time)
+    deletes nothing. -/
 def f71DB : DB :=
   { unit := .day, num := 1, ttl := ⟨.day, 5⟩, taskDuration := 5 * dayNs, clock := 1715320800000000000,
     latestTick := 0, rotationDead := false,
@@ -319,13 +359,28 @@ def f71DB : DB :=
             ⟨1715299200000000000, 1715385600000000000, some 1715385600000000000, 0⟩] }
 
 theorem tick_event_time_legacy_counterexample :
-    ((tick_legacy (fun _ => 0) f71DB 1716184800000000000).2.lst.map Seg.start = []) ∧
-    ((tick (fun _ => 0) f71DB 1716184800000000000).2.lst.map Seg.start =
+    ((tick (fun _ => 0) f71DB 1716184800000000000).2.lst.map Seg.start = []) ∧
+    ((tick_repaired (fun _ => 0) f71DB 1716184800000000000).2.lst.map Seg.start =
       [1714867200000000000, 1715299200000000000]) := by
   decide
 
-example : TraceOK (fun _ => 0) f71DB [.tick 1716184800000000000, .ttl ⟨.day, 1⟩, .select ⟨0, 1716184800000000000, true, true⟩,
-    .retention, .delold] := retention_property _ _ _
+/-- … hence the full statement is false for the code as written (F71). -/
+theorem retention_statement_fails : ¬ RetentionStatement (fun _ => 0) := by
+  intro h
+  have h1 := (h f71DB [.tick 1716184800000000000]).1
+  have h2 := h1 (fun hf => by cases hf) ⟨1715299200000000000, 1715385600000000000, some 1715385600000000000, 0⟩
+    (by decide) (by decide)
+  have h3 : ((applyOp (fun _ => 0) f71DB (.tick 1716184800000000000)).lst.map Seg.start = []) := by decide
+  have h4 := List.mem_map_of_mem (f := Seg.start) h2
+  rw [h3] at h4
+  cases h4
+
+example : TraceOKGen (applyOp (fun _ => 0)) true f71DB
+    [.tick 1715320800000000000, .ttl ⟨.day, 1⟩, .select ⟨0, 1716184800000000000, true, true⟩, .retention, .delold] :=
+  retention_property_partial _ _ _
+
+/-- non-vacuity of the tick clause of `retention_property_partial`: a tick at the clock time -/
+example : (1715320800000000000 : Int) ≤ f71DB.clock := by decide
 
 /-- The C06 machine (`C06.step`, about which `partition_reachable` speaks) is the projection of the
     database operations `create` / `interval` / `reopen` executed by the correspondence drivers. -/
@@ -341,10 +396,10 @@ theorem applyOp_projects (z : Zone) (d : DB) :
   intro G rp
   refine ⟨?_, ?_, ?_⟩
   · intro ts
-    simp only [applyOp, C06.step, DB.grid, DB.rule, G]
+    simp only [applyOp, applyOpWith, C06.step, DB.grid, DB.rule, G]
     cases create (gridOf z ⟨d.unit, d.num⟩) d.lst ts <;> simp
   · intro n hn
-    simp [applyOp, C06.step, hn]
-  · simp [applyOp, C06.step, DB.reopen, DB.grid, DB.rule, G, rp]
+    simp [applyOp, applyOpWith, C06.step, hn]
+  · simp [applyOp, applyOpWith, C06.step, DB.reopen, DB.grid, DB.rule, G, rp]
 
 end Banyan.C07
